@@ -29,8 +29,30 @@ def bounds(tier):
     return dict(BOUNDS[tier], draw_modes=["normal", "collide"])
 
 
+_RULEDIR = []
+
+
+def ruledir():
+    """one directory of rule files shared by all driver runs (the order in which the file system lists it is the same for all)"""
+    if not _RULEDIR:
+        import atexit, shutil, tempfile
+
+        d = tempfile.mkdtemp(prefix="c20_rules_")
+        atexit.register(shutil.rmtree, d, True)
+        os.mkdir(os.path.join(d, "sub"))
+        for name, fld in (("zeta.yml", "f1"), ("alpha.yml", "f2"), ("beta.yml", "f3"), ("sub/gamma.yml", "f4"), ("sub/delta.yml", "f5"), ("eps.yml", "f6")):
+            with open(os.path.join(d, name), "w") as f:
+                f.write(f"title: {name}\nlogsource:\n  category: c\ndetection:\n  sel:\n    {fld}: v\n  condition: sel\n")
+        with open(os.path.join(d, "bad1.yml"), "w") as f:
+            f.write("title: bad1\nlogsource:\n  category: c\nlevel: nope\ndetection:\n  sel:\n    g1: v\n  condition: sel\n")
+        with open(os.path.join(d, "sub", "bad2.yml"), "w") as f:
+            f.write("title: bad2\nlogsource:\n  category: c\nstatus: nope\ndetection:\n  sel:\n    g2: v\n  condition: sel\n")
+        _RULEDIR.append(d)
+    return _RULEDIR[0]
+
+
 def run_driver(hashseed, rseed, mode):
-    env = dict(os.environ, PYTHONHASHSEED=str(hashseed), VERIF_REPO=REPO)
+    env = dict(os.environ, PYTHONHASHSEED=str(hashseed), VERIF_REPO=REPO, VERIF_C20_RULEDIR=ruledir())
     p = subprocess.run([sys.executable, DRIVER, str(rseed), mode], capture_output=True, text=True, env=env, timeout=300)
     if p.returncode != 0:
         raise RuntimeError(f"driver failed (hashseed={hashseed}): {p.stderr[-800:]}")
